@@ -167,6 +167,28 @@ direct_fill_eligible (machine_t *m, const sim_op_t *op)
     }
 }
 
+/* what does the cache hold for this key?  Draw the glyph (white, OVER) onto a cleared
+ * 24x24 a8r8g8b8 image by the library's own glyph call. */
+static void
+probe_glyph (machine_t *m, int c, int font, int glyph, uint32_t *out)
+{
+    pixman_color_t white = { 0xffff, 0xffff, 0xffff, 0xffff };
+    pixman_image_t *src = pixman_image_create_solid_fill (&white);
+    pixman_image_t *dst = pixman_image_create_bits (PIXMAN_a8r8g8b8, 24, 24, out, 24 * 4);
+    pixman_glyph_t g;
+    memset (out, 0, 24 * 24 * 4);
+    if (src && dst && m->gc[c])
+    {
+	pixman_glyph_cache_freeze (m->gc[c]);
+	g.glyph = pixman_glyph_cache_lookup (m->gc[c], (void *)(uintptr_t)font, (void *)(uintptr_t)glyph);
+	g.x = 8; g.y = 8;
+	if (g.glyph) pixman_composite_glyphs_no_mask (PIXMAN_OP_OVER, src, dst, 0, 0, 0, 0, m->gc[c], 1, &g);
+	pixman_glyph_cache_thaw (m->gc[c]);
+    }
+    if (src) pixman_image_unref (src);
+    if (dst) pixman_image_unref (dst);
+}
+
 typedef struct { int i, k, mode, entry; } plan_t;
 
 static uint64_t
@@ -188,6 +210,7 @@ lockstep (const scenario_t *sc, const plan_t *pl, result_t *res, long *fired_out
 	sim_op_t op0 = sc->ops[j], opf = sc->ops[j];
 	mstep_t s0, sf;
 	uint8_t *pre = NULL, *pre2 = NULL;
+	const void *fail_site = NULL;
 	int fired;
 
 	if (op0.n < M_PREFIX) { op0.n = opf.n = M_PREFIX; }
@@ -227,6 +250,7 @@ lockstep (const scenario_t *sc, const plan_t *pl, result_t *res, long *fired_out
 	sim_alloc.bad_free = 0;
 	sim_alloc.bad_free_site = NULL;
 	machine_step (mf, &opf, 2 * j + 1, &sf);
+	fail_site = sim_alloc.first_fail_site;
 	fired = sf.n_failed;
 	fired_total += fired;
 	res->op_index = j;
@@ -270,6 +294,24 @@ lockstep (const scenario_t *sc, const plan_t *pl, result_t *res, long *fired_out
 	    }
 	    if (s0.has_status && !sf.ret) sim_count ("failure_reported", 1);
 	    if (!s0.has_status || sf.ret) sim_count ("fault_absorbed", 1);
+	}
+
+	if (fired && op0.kind == MOP_GC_INSERT && sf.ret && s0.ret && op0.n >= M_PREFIX + 3)
+	{
+	    /* insert said "done" although an allocation failed in it: the cached copy must be complete */
+	    static uint32_t p0[24 * 24], pf[24 * 24];
+	    int c = (int)sim_mod (op0.a[M_PREFIX], M_NGC), fk = (int)(1 + sim_mod (op0.a[M_PREFIX + 1], 64)), gk = (int)(1 + sim_mod (op0.a[M_PREFIX + 2], 64));
+	    sim_alloc_enter (2 * j, FAULT_NONE, 0, 0); probe_glyph (m0, c, fk, gk, p0); sim_alloc_leave ();
+	    sim_alloc_enter (2 * j + 1, FAULT_NONE, 0, 0); probe_glyph (mf, c, fk, gk, pf); sim_alloc_leave ();
+	    if (memcmp (p0, pf, sizeof p0))
+	    {
+		char st[128];
+		snprintf (st, sizeof st, "gc_insert@%p", fail_site);
+		sim_violation (res, "C15", "C15/success-reported-but-work-skipped", st,
+			       "op %d: pixman_glyph_cache_insert returned a glyph although allocation k=%d (mode %d) failed in it, and the cached glyph draws differently from the fault-free one",
+			       j, pl->k, pl->mode);
+		break;
+	    }
 	}
 
 	/* ---- state after the call */
@@ -338,7 +380,7 @@ lockstep (const scenario_t *sc, const plan_t *pl, result_t *res, long *fired_out
 		     * report failure"; only void drawing functions may skip work silently) */
 		    char st[128];
 		    /* the driver turns the address of the failing allocation's caller into a function name */
-		    snprintf (st, sizeof st, "%s%s@%p", mop_names[op0.kind], direct_fill_eligible (mf, &op0) ? "+direct-fill" : "", sim_alloc.first_fail_site);
+		    snprintf (st, sizeof st, "%s%s@%p", mop_names[op0.kind], direct_fill_eligible (mf, &op0) ? "+direct-fill" : "", fail_site);
 		    sim_violation (res, "C15", "C15/success-reported-but-work-skipped", st,
 				   "op %d (%s) returned TRUE although allocation k=%d (mode %d) failed in it, and slot %d differs from the fault-free run: work was skipped silently",
 				   j, mop_names[op0.kind], pl->k, pl->mode, slot);
@@ -497,6 +539,7 @@ generate (uint64_t seed, int tier, const char *property, scenario_t *sc)
     if (wide_run) gen_bits_exact (&g, 0 == 0 ? 1 : 1, gen_pick_format (&g, rng_chance (&r, 1, 2) ? FC_32 : FC_WIDE), (int)rng_range (&r, 2050, 2300), 1, 0, 0, 0, 0);
     else gen_bits (&g, 1, FC_ANY, 70, 24, 0xf);
     gen_source (&g, 2, FC_ANY, 40);
+    if (rng_chance (&r, 1, 3)) gen_bits (&g, 3, FC_32, 40, 12, 0x8);
 
     for (i = 0; i < n_ops; i++)
     {
@@ -512,6 +555,8 @@ generate (uint64_t seed, int tier, const char *property, scenario_t *sc)
 	else if (roll < 40 && src >= 0) gen_clip (&g, src, 1);
 	else if (roll < 43 && src >= 0) gen_misc_prop (&g, src);
 	else if (roll < 47 && dst >= 0) { int mp = gen_find (&g, 1, 1); if (mp >= 0 && mp != dst) gen_alpha_map (&g, dst, rng_chance (&r, 1, 5) ? -1 : mp); }
+	else if (roll < 50 && dst >= 0 && src >= 0 && g.s[src].kind == MOP_BITS && (sim_formats[g.s[src].fmt_idx] == PIXMAN_a8r8g8b8 || sim_formats[g.s[src].fmt_idx] == PIXMAN_x8r8g8b8))
+	    gen_cover_bilinear (&g, src, dst);
 	else if (roll < 62 && dst >= 0 && src >= 0) gen_composite (&g, 1, src, mask, dst);
 	else if (roll < 67 && dst >= 0) gen_fill_boxes (&g, dst, rng_chance (&r, 1, 2), 1);
 	else if (roll < 69 && dst >= 0) gen_fill (&g, dst);
